@@ -16,12 +16,14 @@ CONSTANTS
   Bad <- MCBad
   Spellings <- MCSpellings
   JunkClasses <- MCJunk
+  NbrSays <- %(nbr)s
+  Runnable <- MCRunnable
   MaxLoads = %(loads)d
   HistGivens <- %(givens)s
 %(inv)s
 CHECK_DEADLOCK FALSE
 """
-INV = ("INVARIANTS TypeOK TwoOutcomes ResultIsEffective ErrorIsJustified BadIsRejected SingleSource PairPrecedence HistoryIndependent\n"
+INV = ("INVARIANTS TypeOK TwoOutcomes ResultIsEffective ErrorIsJustified BadIsRejected SingleSource PairPrecedence HistoryIndependent NeighbourIndependent AcceptedIsRunnable\n"
        "PROPERTY Terminates")
 HINV = "INVARIANTS TypeOK TwoOutcomes ResultIsEffective ErrorIsJustified BadIsRejected HistoryIndependent"
 FILES = ["config/c15_test.go", "config/c15_history_test.go", "config/c15_run_test.go"]
@@ -50,7 +52,7 @@ def run(ctx):
     ]
     # 1. the model: exhaustive over the full product in thorough, over the generator's universe in quick
     spec = ctx.pick("SmallSpec", "Spec")
-    mc = ctx.tlc("ConfigSources_MC", cfg_text=CFG % dict(spec=spec, inv=INV, loads=1, givens="MCNoGivens"), workers=ctx.pick(4, 8),
+    mc = ctx.tlc("ConfigSources_MC", cfg_text=CFG % dict(spec=spec, inv=INV, loads=1, givens="MCNoGivens", nbr="MCNbrSays"), workers=ctx.pick(4, 8),
                  coverage=ctx.thorough, timeout=ctx.pick(120, 900))
     ctx.log("MC(%s): %d generated, %d distinct, %.0fs" % (spec, mc.generated, mc.distinct, mc.wall))
     if not ctx.need_tlc_ok(mc, "ConfigSources MC"):
@@ -62,7 +64,7 @@ def run(ctx):
 
     # 2. the generator: one case per completed Load
     cases = os.path.join(ctx.tmp, "c15.cases")
-    g = ctx.tlc("ConfigSources_MC", cfg_text=CFG % dict(spec="GenSpec", inv="INVARIANTS " + ctx.pick("PrintDegenerate2", "PrintDegenerate3"), loads=1, givens="MCNoGivens"), workers=4, json_sink=cases, timeout=300)
+    g = ctx.tlc("ConfigSources_MC", cfg_text=CFG % dict(spec="GenSpec", inv="INVARIANTS " + ctx.pick("PrintDegenerate2", "PrintDegenerate3"), loads=1, givens="MCNoGivens", nbr="MCNbrSays"), workers=4, json_sink=cases, timeout=300)
     if not ctx.need_tlc_ok(g, "ConfigSources Gen"):
         return
     ncases = sum(1 for _ in open(cases))
@@ -74,7 +76,7 @@ def run(ctx):
 
     # 2b. histories: several Loads in one process
     hcases = os.path.join(ctx.tmp, "c15.hist")
-    gh = ctx.tlc("ConfigSources_MC", cfg_text=CFG % dict(spec="HistGenSpec", inv=HINV, loads=3, givens="MCHistGivens"), workers=4,
+    gh = ctx.tlc("ConfigSources_MC", cfg_text=CFG % dict(spec="HistGenSpec", inv=HINV, loads=3, givens="MCHistGivens", nbr="MCNoNbr"), workers=4,
                  json_sink=hcases, coverage=ctx.thorough, timeout=300)
     if not ctx.need_tlc_ok(gh, "ConfigSources Hist"):
         return
@@ -90,8 +92,8 @@ def run(ctx):
 
     # 3. replay into config.Load for every registered option
     r = harness(ctx, cases, "C15 replay",
-                env={"VERIF_C15_EXTRA_EVERY": ctx.pick(6, 1), "VERIF_C15_DEEP_EVERY": ctx.pick(3, 1), "VERIF_C15_HIST": hcases,
-                     "VERIF_C15_HIST_EVERY": ctx.pick(12, 1), "VERIF_C15_DEG_FEW": ctx.pick(2, 12),
+                env={"VERIF_C15_EXTRA_EVERY": ctx.pick(6, 1), "VERIF_C15_DEEP_EVERY": ctx.pick(4, 1), "VERIF_C15_HIST": hcases,
+                     "VERIF_C15_HIST_EVERY": ctx.pick(12, 1), "VERIF_C15_DEG_FEW": ctx.pick(3, 12), "VERIF_C15_NBR_EVERY": ctx.pick(3, 1),
                      "VERIF_C15_ROBUST": ctx.pick(4000, 60000)})
     if r is None:
         return
@@ -100,7 +102,8 @@ def run(ctx):
             % (s["options"], s["all_options"], s["ran"], s["loads"], s["procs"], s["robust"], s["failed"], r.wall))
     ctx.log("degenerate values: %d replays; histories: %d options x %d histories = %d Loads in one process (%d references from fresh processes)"
             % (s.get("degenerate_replays", 0), s.get("hist_options", 0), nh, s.get("hist_steps", 0), s.get("fresh_refs", 0)))
-    if s.get("degenerate_replays", 0) < 1000 or s.get("hist_steps", 0) < 1000:
+    ctx.log("two options at a time: %d replays with a well-/ill-formed neighbour value before or after the option" % s.get("neighbour_replays", 0))
+    if s.get("degenerate_replays", 0) < 1000 or s.get("hist_steps", 0) < 1000 or s.get("neighbour_replays", 0) < 1000:
         ctx.inconclusive("degenerate / history part incomplete: %s" % json.dumps({k: s.get(k) for k in ("degenerate_replays", "hist_steps")}))
     if s.get("flaky"):
         ctx.log("%d Loads disagreed once and agreed when repeated (transient interface-query errors of the OS); not judged" % s["flaky"])
@@ -141,6 +144,8 @@ def run(ctx):
         for line in fh:
             c = json.loads(line)
             if "cmd" not in c:
+                continue
+            if c.get("nsrc", "-") != "-":
                 continue
             if c["cmd"] == "v1" and c["fenv"] == "v2" and c["result"] == "cfg" and not c["junk"] and c["fstate"] == "absent" and c["env"] == "-":
                 st = c
